@@ -82,6 +82,9 @@ func runC04(r *simrt.Run, tier Tier) Outcome {
 	if r.Choose(8, "c04.temporal") == 7 {
 		return runC04Temporal(r, tier)
 	}
+	if r.OneIn(10, "c04.do-order") {
+		return runC04Do(r)
+	}
 	o := DrawOpts(r)
 	o.Aggregation = false
 	o.Negation = true
